@@ -5,6 +5,8 @@ import (
 	"fmt"
 	"strings"
 
+	"github.com/ajitpratap0/GoSQLX/pkg/linter"
+
 	"verif/engine/common"
 )
 
@@ -60,6 +62,21 @@ func parseLFlags(fl []string) lflags {
 }
 
 func enumLint(e *common.Enum) {
+	for _, fl := range [][]string{nil, {"--fail-on-warn"}} {
+		for _, pattern := range []string{"", "[", "*.txt"} {
+			for i, a1 := range lintArgAtoms {
+				fl, pattern, a1 := fl, pattern, a1
+				do(e, fmt.Sprintf("lint-arg-forms|%v|%q|%s", fl, pattern, a1), func(c *common.Ctx) { lintArgForms(c, fl, pattern, []string{a1}) })
+				for j, a2 := range lintArgAtoms {
+					if i == j {
+						continue
+					}
+					a2 := a2
+					do(e, fmt.Sprintf("lint-arg-forms|%v|%q|%s|%s", fl, pattern, a1, a2), func(c *common.Ctx) { lintArgForms(c, fl, pattern, []string{a1, a2}) })
+				}
+			}
+		}
+	}
 	all := append(append(append([]file{}, baseClasses...), lintClasses...), missingFile)
 	for i, fl := range lintFlagSets() {
 		lf := parseLFlags(fl)
@@ -96,6 +113,68 @@ func enumLint(e *common.Enum) {
 				do(e, "lint-inline|"+lf.key+"|"+f.Class, func(c *common.Ctx) { lintStream(c, fl, f, false) })
 			}
 		}
+	}
+}
+
+// lintArgForms: lint -r over directories (existing with clean files, existing with a file that cannot be linted, missing),
+// alone and in ordered pairs, with the default and with a malformed file pattern.  The verdict is the library's:
+// linter.LintDirectory per argument - a result that carries an error, or a finding of failing severity, means non-zero.
+var lintArgTree = []file{
+	{Name: "good/a.sql", Content: "SELECT a FROM t;\n", Class: "clean"},
+	{Name: "good/inner/b.sql", Content: "SELECT b FROM u;\n", Class: "clean"},
+	{Name: "warn/w.sql", Content: "select a from t;\n", Class: "lower-case keywords"},
+	{Name: "plain.sql", Content: "SELECT c FROM v;\n", Class: "clean"},
+}
+
+var lintArgAtoms = []string{"good", "warn", "nope", "good/inner", "also-missing/deeper", "."}
+
+func lintArgForms(c *common.Ctx, fl []string, pattern string, atoms []string) {
+	sb := newSandbox()
+	defer sb.close()
+	sb.put(lintArgTree)
+	lf := parseLFlags(fl)
+	pat := pattern
+	if pat == "" {
+		pat = "*.sql"
+	}
+	v := accept
+	var notes []string
+	func() {
+		defer func() {
+			if r := recover(); r != nil {
+				v = either
+				notes = append(notes, fmt.Sprint("library panicked: ", r))
+			}
+		}()
+		for _, a := range atoms {
+			res := newLinter(lf.maxLen).LintDirectory(sb.path(a), pat)
+			for _, fr := range res.Files {
+				if fr.Error != nil {
+					v = reject
+					notes = append(notes, a+": library error: "+fr.Error.Error())
+				}
+				for _, vi := range fr.Violations {
+					if vi.Severity == linter.SeverityError || (lf.failOnWarn && vi.Severity == linter.SeverityWarning) {
+						v = reject
+						notes = append(notes, a+": finding of failing severity in "+fr.Filename)
+					}
+				}
+			}
+		}
+	}()
+	args := cat([]string{"lint", "-r"}, fl...)
+	if pattern != "" {
+		args = append(args, "--pattern", pattern)
+	}
+	args = cat(args, atoms...)
+	d := describe(args, lintArgTree, nil) + "  " + strings.Join(notes, "\n  ") + "\n"
+	c.Input(describe(args, lintArgTree, nil))
+	r := sb.run(nil, nil, args...)
+	exitOracle(c, "lint", "recursive:"+lf.class, "dirs", v, r, d)
+	untouched(c, sb, lintArgTree, "modified-by-check-mode:lint", d)
+	c.Outcome("lint-arg-forms:" + lf.class + ":" + v.String())
+	if v == reject {
+		c.NonTrivial()
 	}
 }
 
